@@ -460,8 +460,38 @@ impl DependencyGraph {
                 .find_map(|dependent| find_blocked_thread(me, *dependent, new_owner_id))
         }
 
+        /// Finds the `new_owner_id` thread itself among the threads blocked on `query` or on a
+        /// query that transferred its lock to `query` (recursively).
+        fn find_new_owner_thread(
+            me: &DependencyGraph,
+            query: DatabaseKeyIndex,
+            new_owner_id: ThreadId,
+        ) -> Option<(DatabaseKeyIndex, usize)> {
+            if let Some(blocked_threads) = me.query_dependents.get(&query) {
+                if let Some(i) = blocked_threads.iter().position(|id| *id == new_owner_id) {
+                    return Some((query, i));
+                }
+            }
+
+            me.transferred_dependents
+                .get(&query)
+                .iter()
+                .copied()
+                .flatten()
+                .find_map(|dependent| find_new_owner_thread(me, *dependent, new_owner_id))
+        }
+
+        // If the new owner's thread is itself blocked on `source_query` or on one of the queries
+        // that `source_query` owns, it is the thread that has to be unblocked: every edge in that
+        // subtree is about to be re-pointed at it (`update_transferred_edges`), including its own.
+        // Only otherwise look for a thread that the new owner's thread (transitively) waits for.
+        // The order matters: another dependent can satisfy `depends_on(new_owner_id, id)` as well
+        // (a thread blocks on whoever holds a re-claimed transferred query at that moment, and
+        // keeps that edge when the holder releases the query again), and picking it would leave
+        // the new owner's thread blocked on itself.
         if let Some((query, query_dependents_index)) =
-            find_blocked_thread(self, source_query, new_owner_id)
+            find_new_owner_thread(self, source_query, new_owner_id)
+                .or_else(|| find_blocked_thread(self, source_query, new_owner_id))
         {
             let blocked_threads = self.query_dependents.get_mut(&query).unwrap();
 
